@@ -48,6 +48,15 @@ def mk(fn):
         o12, _ = call(fn, a * U1 + b * U2, p)
         if not abs(o12 - (a * o1 + b * o2)).max() <= 1e-9 * abs(o12).max():
             return bad("%s is not linear: P(a U1 + b U2) != a P(U1) + b P(U2) (inputs re-used after the first calls)" % fn, float(abs(o12 - (a * o1 + b * o2)).max()), 0.0)
+        # linearity at the ends of the range: the zero field maps to the zero field, and a field scaled by a very small / very large constant
+        # maps to the scaled output (a linear map never looks at the size of its input)
+        oz, _ = call(fn, numpy.zeros((N, N), dtype=complex), p)
+        if not (numpy.all(numpy.isfinite(oz)) and abs(oz).max() == 0):
+            return bad("%s is not linear: the zero field does not propagate to the zero field" % fn, "non-finite" if not numpy.all(numpy.isfinite(oz)) else float(abs(oz).max()), 0.0)
+        for c in (1e-170, 1e+150, -3e-120j):
+            oc, _ = call(fn, c * keep1, p)
+            if not (numpy.all(numpy.isfinite(oc)) and abs(oc / c - o1).max() <= 1e-9 * abs(o1).max()):
+                return bad("%s is not linear: P(c U) != c P(U) for c = %r" % (fn, c), float(abs(oc / c - o1).max()) if numpy.all(numpy.isfinite(oc)) else "non-finite", 0.0)
         if not (numpy.array_equal(U1, keep1) and numpy.array_equal(U2, keep2)):
             return bad("%s modified its input field in place" % fn)
     return chk
